@@ -19,7 +19,7 @@ import numpy as np
 
 import sim  # noqa: F401
 from sim import build
-from sim.core import attempt, exc_tag
+from sim.core import attempt, deep_tier, exc_tag
 from sim.oracle import snap, snap_diff
 from sim.simfs import SimFS, mounted
 
@@ -110,7 +110,7 @@ def generate(rng, seed, part):
     ops = []
     nxt = n
     can_fill = True
-    for _ in range(rng.randint(2, 14)):
+    for _ in range(rng.randint(2, 14) if not deep_tier(rng) else rng.randint(14, 40)):
         r = rng.random()
         if r < 0.22 and nxt < len(entries) and can_fill:
             k = rng.randint(1, min(3, len(entries) - nxt))
